@@ -30,11 +30,15 @@ def plan (tier, seed):
 
 def make (c):
     rng = np.random.default_rng ([c ['seed'], 10, c ['i']])
-    if rng.random () < 0.55:
-        spec = gen.fam_free (rng, equal_junction = bool (rng.random () < 0.5), seg_hi = 1 / 18.01)
-    else:
-        spec = gen.fam_ground (rng, seg_hi = 1 / 18.01)
+    u = rng.random ()
+    spec = gen.curve_spec (rng) if u < 0.1 else None
+    if spec is None:
+        if u < 0.55:
+            spec = gen.fam_free (rng, equal_junction = bool (rng.random () < 0.5), seg_hi = 1 / 18.01)
+        else:
+            spec = gen.fam_ground (rng, seg_hi = 1 / 18.01)
     gen.add_sources (rng, spec, nmax = 3)
+    gen.taper_some (np.random.default_rng ([c ['seed'], 101, c ['i']]), spec, 0.15)
     gnd  = spec ['media'] is not None
     nth  = int (rng.integers (2, 8))
     nph  = int (rng.integers (2, 9))
